@@ -168,7 +168,13 @@ func Verif_C12_ChunkedWrite() {
 // Verif_C12_ChunkBoundaries: replies whose total length sits on, just below and just above the
 // multiples of the 1024-byte write chunk reach the client complete, once, and are followed by the
 // next reply (concrete contents, so that any way of cutting the reply into writes can be followed).
-func Verif_C12_ChunkBoundaries() {
+func Verif_C12_ChunkBoundaries() { verifChunkBoundaries("C12") }
+
+// Verif_C01_LongValuesOverTheWire: the same scenario under C01 - a long value read back by a TCP client
+// arrives byte for byte, whatever its length relative to the 1 KB pieces replies are sent in.
+func Verif_C01_LongValuesOverTheWire() { verifChunkBoundaries("C01") }
+
+func verifChunkBoundaries(tag string) {
 	s := verifServer()
 	lengths := []int{1023, 1024, 1025, 1026, 2047, 2048, 2049, 2050, 3072, 3073, 4097, 5000}
 	total := lengths[vr.Choose("reply_len", len(lengths))]
@@ -177,7 +183,7 @@ func Verif_C12_ChunkBoundaries() {
 	fc := &fakeConn{input: [][]byte{[]byte("*2\r\n$3\r\nGET\r\n$1\r\nk\r\n"), []byte("*1\r\n$4\r\nPING\r\n")}}
 	s.handleConnection(fc)
 	want := "$" + strconv.Itoa(len(v)) + "\r\n" + v + "\r\n" + "+PONG\r\n"
-	vr.Assert(string(fc.written) == want, "C12.chunk_boundaries.reply_complete_then_next_reply")
+	vr.Assert(string(fc.written) == want, tag+".chunk_boundaries.reply_complete_then_next_reply")
 	vr.Reach("end")
 }
 
